@@ -124,7 +124,12 @@ def run_job(args):
         res["inconclusive"].append(f"counterexample for {label} did not reproduce on the un-instrumented code: {values}")
         return None
 
+    class _Stop(BaseException):
+        pass
+
     def on_path(e, out):
+        if res["violations"] and opts.get("stop_on_violation", True):
+            raise _Stop()
         cx = state["cx"]
         res["paths"] += 1
         if state["degraded"]:
@@ -194,6 +199,8 @@ def run_job(args):
         if cap:
             res["cap"] = cap
             res["inconclusive"].append(f"exploration cap hit: {cap} after {eng.paths} paths")
+    except _Stop:
+        res["cap"] = "stopped after first confirmed violation"
     except EngineError as e:
         res["inconclusive"].append("engine error: " + str(e))
     except FuelExhausted:
